@@ -39,51 +39,30 @@ _DRE = re.compile(r"^D((?:\d,?)+)\((.*)\)$")
 
 def d_symbol(name, j):
     """symbol of d/dX_j of the symbol `name` (derivative indices kept sorted: mixed partials commute)"""
+    side = ""
+    if "@" in name:  # restriction commutes with differentiation: D(f@+) is written D(f)@+
+        name, side = name.rsplit("@", 1)
+        side = "@" + side
     m = _DRE.match(name)
     if m:
         idx = sorted([int(x) for x in m.group(1).split(",")] + [j])
         base = m.group(2)
     else:
         idx, base = [j], name
-    return sym.sym(f"D{','.join(map(str, idx))}({base})")
+    return sym.sym(f"D{','.join(map(str, idx))}({base}){side}")
 
 
 def derive(e, leaf, memo):
-    """derivation on terms with the given rule for symbols"""
+    """derivation on terms with the given rule for symbols (calculus table of sa/adlift.py for functions)"""
+    from .adlift import Deriv
 
-    def rec(x):
-        r = memo.get(x)
-        if r is not None:
-            return r
-        op = x.op
-        if op in ("c", "I"):
-            r = sym.ZERO
-        elif op == "s":
-            r = leaf(x.args[0])
-        elif op == "cs":
-            r = sym.conj(leaf(x.args[0]))
-        elif op == "+":
-            r = sym.add(rec(x.args[0]), rec(x.args[1]))
-        elif op == "*":
-            r = sym.add(sym.mul(rec(x.args[0]), x.args[1]), sym.mul(x.args[0], rec(x.args[1])))
-        elif op == "/":
-            u, v = x.args
-            du, dv = rec(u), rec(v)
-            r = sym.div(du, v) if dv is sym.ZERO else sym.div(sym.add(sym.mul(du, v), sym.neg(sym.mul(u, dv))), sym.mul(v, v))
-        elif op == "^":
-            u, n = x.args
-            du = rec(u)
-            r = sym.ZERO if du is sym.ZERO else sym.mul(sym.mul(sym.const(n), sym.power(u, sym.const(n - 1))), du)
-        else:
-            subs = [rec(a) for a in x.args if isinstance(a, sym.Ex)]
-            if all(s is sym.ZERO for s in subs):
-                r = sym.ZERO  # a function of constants
-            else:
-                raise SemError(f"derivative of {op} {x.args[0] if x.args else ''} of a non-constant not modelled")
-        memo[x] = r
-        return r
-
-    return rec(e)
+    d = memo.get("__deriv__")
+    if d is None:
+        d = memo["__deriv__"] = Deriv((), sym_rule=lambda name, k: leaf(name))
+    try:
+        return d(e)
+    except ValueError as ex:
+        raise SemError(str(ex))
 
 
 class PipeWorld:
@@ -229,9 +208,10 @@ class PipeWorld:
 
     def _leaf_X(self, j):
         def leaf(name):
-            if name in self.vertex_symbols or name == "w":
+            bare = name.rsplit("@", 1)[0]
+            if bare in self.vertex_symbols or bare == "w":
                 return sym.ZERO
-            m = re.match(r"^X\[(\d+)\]$", name)
+            m = re.match(r"^X\[(\d+)\]$", bare)
             if m:
                 return sym.ONE if int(m.group(1)) == j else sym.ZERO
             return d_symbol(name, j)
@@ -250,16 +230,42 @@ class PipeWorld:
         r = node(T(a.shape + (tdim,), a.fi, a.fid, data), "ReferenceGrad", (a,))
         return r
 
+    def _leaf_x(self, k):
+        """d/dx_k of a symbol: chain rule through the reference coordinate with the inverse Jacobian of the
+        symbol's own side (a restricted symbol lives on the cell of that side)"""
+        from .uflmodel import restrict
+
+        tdim = self.cell.tdim
+        Kside = {}
+
+        def K(side, j):
+            if (side, j) not in Kside:
+                e = self.K.get((j, k))
+                if side:
+                    e = restrict(T((), (), (), {((), ()): e}), side).data[((), ())]
+                Kside[(side, j)] = e
+            return Kside[(side, j)]
+
+        def leaf(name):
+            bare, _, side = name.partition("@")
+            if bare in self.vertex_symbols or bare == "w":
+                return sym.ZERO
+            m = re.match(r"^X\[(\d+)\]$", bare)
+            if m:
+                return K(side, int(m.group(1)))
+            return _dot([d_symbol(name, j) for j in range(tdim)], [K(side, j) for j in range(tdim)])
+
+        return leaf
+
     def grad(self, a):
         a = as_T(a)
-        tdim, gdim = self.cell.tdim, self.cell.gdim
-        memos = [dict() for _ in range(tdim)]
-        leaves = [self._leaf_X(j) for j in range(tdim)]
+        gdim = self.cell.gdim
+        memos = [dict() for _ in range(gdim)]
+        leaves = [self._leaf_x(k) for k in range(gdim)]
         data = {}
         for (c, iv), v in a.data.items():
-            dX = [derive(v, leaves[j], memos[j]) for j in range(tdim)]
             for k in range(gdim):
-                data[(c + (k,), iv)] = _dot(dX, [self.K.get((j, k)) for j in range(tdim)])
+                data[(c + (k,), iv)] = derive(v, leaves[k], memos[k])
         return node(T(a.shape + (gdim,), a.fi, a.fid, data), "Grad", (a,))
 
     # ------------------------------------------------------------------ algorithm objects built by lifted code
